@@ -218,6 +218,9 @@ def r3(ctx: Ctx) -> None:
     ok = True
     for i, (st, ub) in enumerate(zip(vars_, ["dw", "dh", "dw", "dh"])):
         kw = dict(st[2][3])
+        for k_, pos in (("value", 1), ("lb", 2), ("ub", 3)):      # create_variable(gekko, value, lb, ub, name)
+            if k_ not in kw and len(st[2][2]) > pos:
+                kw[k_] = st[2][2][pos]
         if kw.get("ub") != ("a", S_, ub) or kw.get("value") != ("s", ("p", 1), k_num(i)) or (i < 2 and kw.get("lb") != k_num(0)):
             ok = False
     if not ok:
